@@ -49,6 +49,10 @@ type PhCase struct {
 	Name string `json:"name"`
 	File string `json:"file"`
 	Pad  string `json:"pad,omitempty"`
+	// EOL: how the lines of the property file end: "" = LF, "crlf" = CR LF (a file saved by a windows editor or checked
+	// out with autocrlf), "nofinal" / "crlf_nofinal" = the same without a terminator behind the last line, which then
+	// is the line of the key. A value never includes the line terminator.
+	EOL  string `json:"eol,omitempty"`
 	From int    `json:"from"` // embedded: text[From:To] goes into the variable
 	To   int    `json:"to"`   //
 	Text string `json:"text"` // invalid_text: what the variable holds
@@ -241,6 +245,7 @@ func genPh(r *vf.Run) func(t *rapid.T) PhCase {
 		c.Name = drawName(t, []string{"VERIF_C17_A", "VERIF_C17_b", "verif_c17_val", "V17"}, "name")
 		c.File = drawPropFile(t, []string{"a.properties", "secret.prop", "x"}, "file")
 		c.Pad = drawPad(t)
+		c.EOL = drawEOL(t)
 		modes := []string{pWhole, pWhole, pWhole, pWhole, pWhole, pWhole}
 		if embeddable(c.Class) && len(text) > 0 {
 			modes = append(modes, pEmbedded, pEmbedded)
@@ -348,8 +353,7 @@ func (c PhCase) install(value, decoyValue string) (func(), error) {
 	if c.Mode != pMissingKey {
 		lines = append(lines, c.Name+"="+value)
 	}
-	lines = append(lines, "last=z")
-	if err := os.WriteFile(path, []byte(strings.Join(lines, "\n")+"\n"), 0o644); err != nil {
+	if err := os.WriteFile(path, []byte(propFileText(lines, c.EOL)), 0o644); err != nil {
 		return nil, err
 	}
 	return func() { os.Remove(path) }, nil
@@ -467,6 +471,7 @@ func checkPh(c PhCase, o *vf.Obs) error {
 		how = "names_nothing"
 	}
 	spellingClasses(o, c.Src, c.Name, file, c.Pad, how, class != cg.CString)
+	eolClasses(o, c.Src, c.EOL, how, class != cg.CString)
 	if c.Decoy != "" && c.Decoy != c.Name {
 		o.ClassIf(mustReject && c.Mode != pInvalid, "missing_with_"+decoyClass(c.Name, c.Decoy)+":"+c.Src)
 		o.ClassIf(!mustReject, "defined_with_"+decoyClass(c.Name, c.Decoy)+":"+c.Src)
